@@ -1596,7 +1596,8 @@ impl<'a, K: Hash + Eq, V, E: OnEvictCallback, S: BuildHasher> IntoIterator
 impl<K: Hash + Eq, V> FromIterator<(K, V)> for RawLRU<K, V> {
     fn from_iter<T: IntoIterator<Item = (K, V)>>(iter: T) -> Self {
         let iter = iter.into_iter();
-        let mut this = Self::new(iter.size_hint().0).unwrap();
+        // an empty (or unsized) source still yields a usable cache of capacity 1
+        let mut this = Self::new(iter.size_hint().0.max(1)).unwrap();
         iter.for_each(|(k, v)| {
             this.put(k, v);
         });
